@@ -535,8 +535,8 @@ def vi_dict(ctx: Ctx):
     roles = {"V": vname, "Q": qname}
     res = S.find("residual = max(residual, abs(V[s] - new_value))", roles) or S.find("residual = max(residual, abs(new_value - V[s]))", roles)
     brk = [n for n in fn_body_nodes(f) if isinstance(n, ast.If) and any(isinstance(b, ast.Break) for b in n.body)]
-    anyres = [n for n in fn_body_nodes(f) if isinstance(n, ast.Assign) and isinstance(n.value, ast.Call) and isinstance(n.value.func, ast.Name)
-              and n.value.func.id == "max" and any(isinstance(x, ast.Call) and isinstance(x.func, ast.Name) and x.func.id == "abs" for x in ast.walk(n.value))]
+    # a running maximum  r = max(r, <...>)  (the absolute difference may be named by a temporary)
+    anyres = [n for n, _ in S.find("r = max(r, ANY)")] + [n for n, _ in S.find("r = max(ANY, r)")]
     if anyres and brk:
         ctx.check(bool(res), "DICT-4", f, anyres[0], f"{who}: residual = max |V_old - V_new|", "", "residual is not the running maximum of |old - new| of the returned state values")
         e = res[0][1] if res else {}
